@@ -4,6 +4,7 @@ import (
 	"strconv"
 	"strings"
 	"time"
+	"unicode"
 
 	"github.com/robfig/cron/v3"
 )
@@ -58,7 +59,14 @@ func (rule *RuleEvents) checkCron(spec *String) {
 	p := cron.NewParser(cron.Minute | cron.Hour | cron.Dom | cron.Month | cron.Dow)
 	sched, err := p.Parse(spec.Value)
 	if err != nil {
-		rule.Errorf(spec.Pos, "invalid CRON format %q in schedule event: %s", spec.Value, err.Error())
+		// The error from the cron parser echoes the user input as-is. Do not break the line of the error message
+		msg := strings.Map(func(r rune) rune {
+			if !unicode.IsPrint(r) {
+				return ' '
+			}
+			return r
+		}, err.Error())
+		rule.Errorf(spec.Pos, "invalid CRON format %q in schedule event: %s", spec.Value, msg)
 		return
 	}
 
